@@ -228,7 +228,8 @@ impl ValGen<'_> {
                     Val::Str(u.pick(STRINGS).to_string())
                 } else {
                     // random text: ASCII incl. quotes/backslashes/control characters, hex-looking, numeric-looking, non-ASCII
-                    let n = [0usize, 1, 2, 5, 31, 32, 33, 64, 100, 300][u.below(10)];
+                    // lengths next to the word size and to the Keccak-256 rate (136 bytes)
+                    let n = [0usize, 1, 2, 5, 31, 32, 33, 64, 100, 135, 136, 137, 271, 272, 273, 300, 1100][u.below(17)];
                     let style = u.below(5);
                     let s: String = (0..n)
                         .map(|i| match style {
@@ -251,7 +252,7 @@ impl ValGen<'_> {
                 }
             }
             Ty::Bytes => {
-                let n = [0usize, 1, 2, 31, 32, 33, 64, 65, 100, 255, 256, 1000][u.below(12)];
+                let n = [0usize, 1, 2, 31, 32, 33, 64, 65, 100, 135, 136, 137, 255, 256, 257, 272, 1000, 4097][u.below(18)];
                 Val::Bytes(u.bytes(n))
             }
             Ty::BytesN(n) => {
@@ -286,7 +287,7 @@ impl ValGen<'_> {
                             0
                         } else if u.ratio(1, 30) && e.struct_ref().is_none() {
                             // a long array of atomic elements now and then
-                            [16usize, 31, 32, 33, 64, 100][u.below(6)]
+                            [15usize, 16, 17, 31, 32, 33, 64, 65, 100, 255, 256, 257][u.below(12)]
                         } else {
                             u.below(4)
                         }
